@@ -259,7 +259,7 @@ Qed.
 Lemma Small_body_read k b : Small (body_src b) -> Small (body_src (res_st (body_read k b))).
 Proof.
   intros HS. destruct b as [r|c|s|s]; cbn [body_read body_src] in *.
-  - unfold fixed_read. destruct (N.eqb (f_remaining r) 0); [exact HS|]. cbv zeta.
+  - unfold fixed_read. destruct (N.eqb (f_remaining r) 0 || N.eqb k 0)%bool; [exact HS|]. cbv zeta.
     destruct (buf_read (N.min (f_remaining r) k) (f_src r)) as [out s'] eqn:Ebr.
     apply (Small_buf_read _ _ _ _ HS) in Ebr.
     destruct out as [|x o]; exact Ebr.
